@@ -18,8 +18,8 @@ FILES = ["src/stereomolgraph/algorithms/color_refine.py", "src/stereomolgraph/ex
 FUNCTIONS = ["__hash__ of the four classes", "color_refine_hash_*", "morgan_generator", "stereo_morgan_generator", "_reaction_generator", "_color_refine"]
 BOUNDS = {"quick": "family 1: A any MG/SMG graph over {0,1,2} (SMG with descriptors), B every family member; family 2: star4 with ligands H,F,Cl,Br / "
                    "dbond with (H,F | H,F), (H,F | Cl,Br), (H,F | H,Cl), (H,Cl | H,Br), every ordering (strided) and embedding 0..2; family 3: A any CRG/SCRG graph over {0,1,2}, "
-                   "B every family member on the same atoms, plus reverse_reaction()",
-          "thorough": "MG over {0,1,2,3}; all orderings of the stereogenic units"}
+                   "B every family member on the same atoms, plus reverse_reaction(); exchange4: every CRG on four atoms (H,F,H,F / H,H,F,Cl) with each bond absent / unchanged / formed / broken (4096 per element pattern) against every other one (hash buckets); hash, set_atom_attribute(atom_type), hash again on every family-1/3 graph",
+          "thorough": "MG over {0,1,2,3}; all orderings of the stereogenic units; exchange4 with fleeting bonds (15625 graphs per pattern), SCRG class and an all-carbon pattern"}
 OUTSIDE = "graphs larger than the bounds; stereo-invalid decorations (descriptor listing a non-bonded atom; known finding); accidental 64-bit collisions are treated as violations, as the property says"
 ASSUMPTIONS = ["PYTHONHASHSEED fixed for the run (reaction-graph labels go through str hashing)"]
 
@@ -68,6 +68,13 @@ def pairs(cls, k=3, tier="quick", **sel):
             rev = ga.reverse_reaction()
             if hash(rev) == ha:
                 return "reaction and its reverse have the same hash although reactant and product differ"
+    # the hash follows an edit: hash, change an element through the public setter, hash again
+    if present and iso.stereo_valid(sa):
+        a0 = sorted(present)[0]
+        ga.set_atom_attribute(a0, "atom_type", "Br")
+        sb = gl.snap(ga)
+        if qualifying(sa, sb) and hash(ga) == ha:
+            return f"hash unchanged after set_atom_attribute({a0}, 'atom_type', 'Br') although the (element, neighbour elements) multisets changed"
     return None
 
 
@@ -125,8 +132,63 @@ def unit(t, cls, embed, **sel):
     return None
 
 
+X4_ELEMENTS = [("H", "F", "H", "F"), ("H", "H", "F", "Cl"), ("C", "C", "C", "C")]
+X4_ROLES = [None, "plain", "formed", "broken", "fleeting"]
+X4_PAIRS = [(0, 1), (0, 2), (0, 3), (1, 2), (1, 3), (2, 3)]
+_X4 = {}
+
+
+def _x4_graph(cname, el, roles):
+    spec = gl.empty_spec(cname)
+    spec["atoms"] = [(i, X4_ELEMENTS[el][i], {}) for i in range(4)]
+    spec["bonds"] = [(a, b, None if r == "plain" else r, {}) for (a, b), r in zip(X4_PAIRS, roles) if r is not None]
+    return gl.build(spec)
+
+
+def _x4_table(cname, el, nroles):
+    """hash -> [(roles, structures)] over every four-atom reaction graph with the given elements (computed once per process)"""
+    key = (cname, el, nroles)
+    if key not in _X4:
+        import itertools
+        t = {}
+        for roles in itertools.product(X4_ROLES[:nroles], repeat=6):
+            g = _x4_graph(cname, el, roles)
+            t.setdefault(hash(g), []).append((roles, structures(gl.snap(g))))
+        _X4[key] = t
+    return _X4[key]
+
+
+def exchange4(cls, el, nroles, r01, r02, r03, r12, r13, r23):
+    """A: any reaction graph on four atoms (every bond absent / unchanged / formed / broken; thorough also fleeting), B: every other such graph:
+    equal hashes only if reactant, product and transition structure agree in their (element, neighbour elements) multisets.  Contains the
+    degenerate exchanges (two H-F swapping H) whose reactant and product coincide with those of 'nothing happens'."""
+    cname = gl.CLS_NAMES[cls]
+    roles = tuple(X4_ROLES[r] for r in (r01, r02, r03, r12, r13, r23))
+    ga = _x4_graph(cname, el, roles)
+    ma = structures(gl.snap(ga))
+    for rb, mb in _x4_table(cname, el, nroles).get(hash(ga), []):
+        q = [k for k in ma if ma[k] != mb[k]]
+        if q:
+            return (f"hash collision although the {'/'.join(q)} (element, neighbour elements) multisets differ: elements {X4_ELEMENTS[el]}, "
+                    f"A bonds {dict(zip(X4_PAIRS, roles))} B bonds {dict(zip(X4_PAIRS, rb))}")
+    # the hash follows an edit: hash, change the element of atom 0 through the public setter, hash again
+    ha = hash(ga)
+    ga.set_atom_attribute(0, "atom_type", "Br")
+    mb = structures(gl.snap(ga))
+    if any(ma[k] != mb[k] for k in ma) and hash(ga) == ha:
+        return (f"hash unchanged after set_atom_attribute(0, 'atom_type', 'Br') although the (element, neighbour elements) multisets changed: "
+                f"elements {X4_ELEMENTS[el]}, bonds {dict(zip(X4_PAIRS, roles))}")
+    return None
+
+
 def plan(tier, seed):
     units = []
+    nr = 4 if tier == "quick" else 5
+    units.append(Sel(name="exchange4", func="vp.props.C16:exchange4",
+                     params={"cls": [2, 3], "el": (0, len(X4_ELEMENTS)), "nroles": (nr, nr + 1), "r01": (0, nr), "r02": (0, nr), "r03": (0, nr), "r12": (0, nr),
+                             "r13": (0, nr), "r23": (0, nr)},
+                     pre=["cls == 2", "el < 2"] if tier == "quick" else ["cls == 2 or el == 0"], shard_by=["el", "cls"], timeout=1500,
+                     nontrivial="r01 > 1 or r02 > 1 or r03 > 1"))
     for cname in gl.CLS_NAMES:
         k = 4 if (tier == "thorough" and cname == "MG") else 3
         u = C02._small_unit(cname, k, "quick" if k == 3 else "thorough", f"vp.props.C16:pairs{k}")
